@@ -356,6 +356,13 @@ func (dec *xmlReader) Struct(tag int, f func(reader) error) error {
 		return err
 	}
 	for subDec.elem != nil {
+		// Items the callback left unread are skipped as a whole: Next() alone would step into an unread
+		// structure, and the items nested in it would then be taken for items of the enclosing structures.
+		if subDec.Type() == TypeStructure {
+			if err := subDec.r.Skip(); err != nil {
+				return err
+			}
+		}
 		if err := subDec.Next(); err != nil {
 			return err
 		}
